@@ -712,4 +712,258 @@ def allcloseQ (rtol atol : Rat) (a b : Aff Rat) : Bool :=
   c a.m.a20 b.m.a20 && c a.m.a21 b.m.a21 && c a.m.a22 b.m.a22 &&
   c a.t.x b.t.x && c a.t.y b.t.y && c a.t.z b.t.z
 
+/-! ## Decision skeletons regenerated from the AST (Generated/C04.lean `sk*`)
+
+  `regen()` writes the body of `Nifti1Header.get_best_affine`, `SpatialImage.update_header`,
+  `Spm99AnalyzeImage.to_file_map` / `from_file_map` of the WORKING TREE as `Sk` terms (verbatim statements).
+  `Sk.toTk` reads them through `atomTable`; `evalBest` / `evalUpdate` / `evalWrite` / `evalRead` give the
+  skeletons their meaning in terms of the model's own operations; Props proves that meaning equal to the
+  decision functions above (`*_skeleton`), so a changed condition, branch or constant breaks a proof. -/
+
+/-- syntactic skeleton of a Python function body, as written by `harness/props/c04.py::fn_skeleton` from the AST
+    of the working tree: statements verbatim (`ast.unparse`, whitespace-normalised), `if` with the rest of the
+    body appended to both branches, `try: s except X: h` as `ite "try-raises X: s" h (act s …)`. -/
+inductive Sk where
+  | ret (what : String)
+  | raise (exc : String)
+  | act (stmt : String) (k : Sk)
+  | ite (cond : String) (t e : Sk)
+  deriving Repr, DecidableEq, Inhabited
+
+/-- the statements / conditions the decision models know, by meaning -/
+inductive Atom where
+  | none_                -- bare `return` / end of the body
+  -- Nifti1Header.get_best_affine
+  | hdrIsStructarr | sformCodeNe0 | qformCodeNe0 | getSform | getQform | getBaseAffine
+  -- SpatialImage.update_header
+  | hdrIsHeader | shapeIsDataShape | shapeDiffers | setDataShape | affineIsNone | allcloseBest | affine2header
+  -- Spm99AnalyzeImage.to_file_map
+  | fileMapIsNone | fileMapDefault | superToFileMap | matIsAffine | matIsNone | defaultXFlip | mIsFlipMat | mIsMat
+  | from111Eye | from111Shift | mTimesFrom | matTimesFrom | withMatFile | savemat
+  -- Spm99AnalyzeImage.from_file_map
+  | retIsSuper | tryOpenMat | openMat | withMatf | readContents | contentsEmpty | loadmat | matInMats | matIsMatsMat
+  | matNdimGt2 | warnMany | matFirstSlice | affIsMat | mInMats | hdrIsRetHeader | affIsFlipM | affIsM
+  | to111Eye | to111Shift | affTimesTo | retRet | valueError
+  deriving DecidableEq, Repr, Inhabited
+
+/-- source text ↦ meaning: the ONLY place where Python text is interpreted; a statement or condition that is not
+    listed here (a changed condition, a new branch, another constant) makes `Sk.toTk` fail and with it every
+    `*_skeleton` theorem -/
+def atomTable : List (String × Atom) :=
+  [("", .none_),
+   ("hdr = self._structarr", .hdrIsStructarr), ("hdr['sform_code'] != 0", .sformCodeNe0),
+   ("hdr['qform_code'] != 0", .qformCodeNe0), ("self.get_sform()", .getSform), ("self.get_qform()", .getQform),
+   ("self.get_base_affine()", .getBaseAffine),
+   ("hdr = self._header", .hdrIsHeader), ("shape = self._dataobj.shape", .shapeIsDataShape),
+   ("hdr.get_data_shape() != shape", .shapeDiffers), ("hdr.set_data_shape(shape)", .setDataShape),
+   ("self._affine is None", .affineIsNone), ("np.allclose(self._affine, hdr.get_best_affine())", .allcloseBest),
+   ("self._affine2header()", .affine2header),
+   ("file_map is None", .fileMapIsNone), ("file_map = self.file_map", .fileMapDefault),
+   ("super().to_file_map(file_map, dtype=dtype)", .superToFileMap), ("mat = self._affine", .matIsAffine),
+   ("mat is None", .matIsNone), ("hdr.default_x_flip", .defaultXFlip),
+   ("M = np.dot(np.diag([-1, 1, 1, 1]), mat)", .mIsFlipMat), ("M = mat", .mIsMat),
+   ("from_111 = np.eye(4)", .from111Eye), ("from_111[:3, 3] = -1", .from111Shift),
+   ("M = np.dot(M, from_111)", .mTimesFrom), ("mat = np.dot(mat, from_111)", .matTimesFrom),
+   ("with file_map['mat'].get_prepare_fileobj(mode='wb') as mfobj", .withMatFile),
+   ("sio.savemat(mfobj, {'M': M, 'mat': mat}, format='4')", .savemat),
+   ("ret = super().from_file_map(file_map, mmap=mmap, keep_file_open=keep_file_open)", .retIsSuper),
+   ("try-raises OSError: matf = file_map['mat'].get_prepare_fileobj()", .tryOpenMat),
+   ("matf = file_map['mat'].get_prepare_fileobj()", .openMat), ("with matf", .withMatf),
+   ("contents = matf.read()", .readContents), ("len(contents) == 0", .contentsEmpty),
+   ("mats = sio.loadmat(BytesIO(contents))", .loadmat), ("'mat' in mats", .matInMats),
+   ("mat = mats['mat']", .matIsMatsMat), ("mat.ndim > 2", .matNdimGt2),
+   ("warnings.warn('More than one affine in \"mat\" matrix, using first')", .warnMany),
+   ("mat = mat[:, :, 0]", .matFirstSlice), ("ret._affine = mat", .affIsMat), ("'M' in mats", .mInMats),
+   ("hdr = ret._header", .hdrIsRetHeader),
+   ("ret._affine = np.dot(np.diag([-1, 1, 1, 1]), mats['M'])", .affIsFlipM), ("ret._affine = mats['M']", .affIsM),
+   ("to_111 = np.eye(4)", .to111Eye), ("to_111[:3, 3] = 1", .to111Shift),
+   ("ret._affine = np.dot(ret._affine, to_111)", .affTimesTo), ("ret", .retRet), ("ValueError", .valueError)]
+
+def atomOf (s : String) : Option Atom := (atomTable.find? (fun e => e.1 == s)).map (·.2)
+
+/-- skeleton over meanings -/
+inductive Tk where
+  | ret (a : Atom)
+  | raise (a : Atom)
+  | act (a : Atom) (k : Tk)
+  | ite (a : Atom) (t e : Tk)
+  deriving DecidableEq, Repr, Inhabited
+
+def Sk.toTk : Sk → Option Tk
+  | .ret s => (atomOf s).map .ret
+  | .raise s => (atomOf s).map .raise
+  | .act s k => match atomOf s, k.toTk with
+    | some a, some k => some (.act a k)
+    | _, _ => none
+  | .ite c t e => match atomOf c, t.toTk, e.toTk with
+    | some a, some t, some e => some (.ite a t e)
+    | _, _, _ => none
+
+/-! ### meaning of the skeletons -/
+
+/-- `Nifti1Header.get_best_affine` -/
+def evalBest (E : Ext) (f : NFmt) (h : NHdr) : Tk → Option (Except Err (Aff Rat))
+  | .ret .getSform => some (.ok h.getSform)
+  | .ret .getQform => some (h.getQform E f)
+  | .ret .getBaseAffine => some (.ok h.baseAffine)
+  | .act .hdrIsStructarr k => evalBest E f h k
+  | .ite .sformCodeNe0 t e => if h.sformCode ≠ 0 then evalBest E f h t else evalBest E f h e
+  | .ite .qformCodeNe0 t e => if h.qformCode ≠ 0 then evalBest E f h t else evalBest E f h e
+  | _ => none
+
+/-- what `SpatialImage.update_header` needs of a header class -/
+structure HdrOps (H : Type) where
+  shapeDiffers : H → Bool
+  setShape : H → H
+  best : H → Except Err (Aff Rat)
+  a2h : H → Aff Rat → H
+
+/-- the header after `if hdr.get_data_shape() != shape: hdr.set_data_shape(shape)` -/
+def HdrOps.norm {H : Type} (ops : HdrOps H) (h : H) : H := if ops.shapeDiffers h then ops.setShape h else h
+
+/-- `SpatialImage.update_header` on a header of type `H`; `a` = `self._affine` -/
+def evalUpdate {H : Type} (ops : HdrOps H) (allclose : Aff Rat → Aff Rat → Bool) (a : Option (Aff Rat)) :
+    Tk → H → Option (Except Err H)
+  | .ret .none_, h => some (.ok h)
+  | .act .hdrIsHeader k, h => evalUpdate ops allclose a k h
+  | .act .shapeIsDataShape k, h => evalUpdate ops allclose a k h
+  | .act .setDataShape k, h => evalUpdate ops allclose a k (ops.setShape h)
+  | .act .affine2header k, h =>
+      match a with
+      | some x => evalUpdate ops allclose a k (ops.a2h h x)
+      | none => none
+  | .ite .shapeDiffers t e, h => if ops.shapeDiffers h then evalUpdate ops allclose a t h else evalUpdate ops allclose a e h
+  | .ite .affineIsNone t e, h => if a.isNone then evalUpdate ops allclose a t h else evalUpdate ops allclose a e h
+  | .ite .allcloseBest t e, h =>
+      match a, ops.best h with
+      | some x, .ok b => if allclose x b then evalUpdate ops allclose a t h else evalUpdate ops allclose a e h
+      | some _, .error er => some (.error er)
+      | none, _ => none
+  | _, _ => none
+
+section spm
+variable {α : Type} [Lean.Grind.CommRing α]
+
+structure WSt (α : Type) where
+  M : Aff α
+  mat : Aff α
+  sh : V3 α
+
+/-- `Spm99AnalyzeImage.to_file_map` (`fmNone`: called without a file map): `none` = no `.mat` written, `some (M, mat)` = the two variables saved -/
+def evalWrite (fmNone xFlip : Bool) (aff : Option (Aff α)) : Tk → WSt α → Option (Option (Aff α × Aff α))
+  | .ret .none_, _ => some none
+  | .act .fileMapDefault k, st => evalWrite fmNone xFlip aff k st
+  | .act .superToFileMap k, st => evalWrite fmNone xFlip aff k st
+  | .act .hdrIsHeader k, st => evalWrite fmNone xFlip aff k st
+  | .act .from111Eye k, st => evalWrite fmNone xFlip aff k { st with sh := ⟨0, 0, 0⟩ }
+  | .act .withMatFile k, st => evalWrite fmNone xFlip aff k st
+  | .act .matIsAffine k, st =>
+      match aff with
+      | some x => evalWrite fmNone xFlip aff k { st with mat := x }
+      | none => evalWrite fmNone xFlip aff k st
+  | .act .mIsFlipMat k, st => evalWrite fmNone xFlip aff k { st with M := st.mat.flipX }
+  | .act .mIsMat k, st => evalWrite fmNone xFlip aff k { st with M := st.mat }
+  | .act .from111Shift k, st => evalWrite fmNone xFlip aff k { st with sh := ⟨-1, -1, -1⟩ }
+  | .act .mTimesFrom k, st => evalWrite fmNone xFlip aff k { st with M := st.M.mulShift st.sh }
+  | .act .matTimesFrom k, st => evalWrite fmNone xFlip aff k { st with mat := st.mat.mulShift st.sh }
+  | .act .savemat k, st => if k = .ret .none_ then some (some (st.M, st.mat)) else none
+  | .ite .fileMapIsNone t e, st =>
+      if fmNone then evalWrite fmNone xFlip aff t st else evalWrite fmNone xFlip aff e st
+  | .ite .matIsNone t e, st => if aff.isNone then evalWrite fmNone xFlip aff t st else evalWrite fmNone xFlip aff e st
+  | .ite .defaultXFlip t e, st => if xFlip then evalWrite fmNone xFlip aff t st else evalWrite fmNone xFlip aff e st
+  | _, _ => none
+
+/-- what the `.mat` file offers the reader -/
+structure MatFile (α : Type) where
+  /-- opening it raises `OSError` (no such file) -/
+  missing : Bool
+  /-- zero bytes -/
+  empty : Bool
+  /-- variable 'mat' (its first slice `[:, :, 0]` when it is a 4x4xN stack) -/
+  mat : Option (Aff α)
+  mat3d : Bool
+  /-- variable 'M' -/
+  M : Option (Aff α)
+
+structure RSt (α : Type) where
+  aff : Aff α
+  mat : Aff α
+  sh : V3 α
+
+/-- `Spm99AnalyzeImage.from_file_map`: the affine of the returned image -/
+def evalRead (xFlip : Bool) (file : MatFile α) (hdrAff : Aff α) : Tk → RSt α → Option (Except Err (Aff α))
+  | .ret .retRet, st => some (.ok st.aff)
+  | .raise .valueError, _ => some (.error .value)
+  | .act .retIsSuper k, st => evalRead xFlip file hdrAff k { st with aff := hdrAff }
+  | .act .openMat k, st => evalRead xFlip file hdrAff k st
+  | .act .withMatf k, st => evalRead xFlip file hdrAff k st
+  | .act .readContents k, st => evalRead xFlip file hdrAff k st
+  | .act .loadmat k, st => evalRead xFlip file hdrAff k st
+  | .act .warnMany k, st => evalRead xFlip file hdrAff k st
+  | .act .hdrIsRetHeader k, st => evalRead xFlip file hdrAff k st
+  | .act .matFirstSlice k, st => evalRead xFlip file hdrAff k st
+  | .act .matIsMatsMat k, st =>
+      match file.mat with
+      | some m => evalRead xFlip file hdrAff k { st with mat := m }
+      | none => none
+  | .act .affIsMat k, st => evalRead xFlip file hdrAff k { st with aff := st.mat }
+  | .act .affIsFlipM k, st =>
+      match file.M with
+      | some m => evalRead xFlip file hdrAff k { st with aff := m.flipX }
+      | none => none
+  | .act .affIsM k, st =>
+      match file.M with
+      | some m => evalRead xFlip file hdrAff k { st with aff := m }
+      | none => none
+  | .act .to111Eye k, st => evalRead xFlip file hdrAff k { st with sh := ⟨0, 0, 0⟩ }
+  | .act .to111Shift k, st => evalRead xFlip file hdrAff k { st with sh := ⟨1, 1, 1⟩ }
+  | .act .affTimesTo k, st => evalRead xFlip file hdrAff k { st with aff := st.aff.mulShift st.sh }
+  | .ite .tryOpenMat t e, st => if file.missing then evalRead xFlip file hdrAff t st else evalRead xFlip file hdrAff e st
+  | .ite .contentsEmpty t e, st => if file.empty then evalRead xFlip file hdrAff t st else evalRead xFlip file hdrAff e st
+  | .ite .matInMats t e, st => if file.mat.isSome then evalRead xFlip file hdrAff t st else evalRead xFlip file hdrAff e st
+  | .ite .matNdimGt2 t e, st => if file.mat3d then evalRead xFlip file hdrAff t st else evalRead xFlip file hdrAff e st
+  | .ite .mInMats t e, st => if file.M.isSome then evalRead xFlip file hdrAff t st else evalRead xFlip file hdrAff e st
+  | .ite .defaultXFlip t e, st => if xFlip then evalRead xFlip file hdrAff t st else evalRead xFlip file hdrAff e st
+  | _, _ => none
+
+/-- the `.mat` file of a `MatMode`, holding the pair `(M, mat)` the writer stored -/
+def MatMode.file (mode : MatMode) (stored : Aff α × Aff α) : MatFile α :=
+  match mode with
+  | .both => ⟨false, false, some stored.2, false, some stored.1⟩
+  | .mOnly => ⟨false, false, Option.none, false, some stored.1⟩
+  | .none => ⟨false, true, Option.none, false, Option.none⟩
+  | .matOnly => ⟨false, false, some stored.2, false, Option.none⟩
+  | .mat3d => ⟨false, false, some stored.2, true, some stored.1⟩
+
+end spm
+
+/-! ### the skeletons the models are written for (over meanings) -/
+
+def tkBestAffine : Tk :=
+  .act .hdrIsStructarr (.ite .sformCodeNe0 (.ret .getSform) (.ite .qformCodeNe0 (.ret .getQform) (.ret .getBaseAffine)))
+
+def tkUpdateTail : Tk :=
+  .ite .affineIsNone (.ret .none_) (.ite .allcloseBest (.ret .none_) (.act .affine2header (.ret .none_)))
+def tkUpdateHeader : Tk :=
+  .act .hdrIsHeader (.act .shapeIsDataShape (.ite .shapeDiffers (.act .setDataShape tkUpdateTail) tkUpdateTail))
+
+def tkWriteTail : Tk :=
+  .act .from111Eye (.act .from111Shift (.act .mTimesFrom (.act .matTimesFrom (.act .withMatFile
+    (.act .savemat (.ret .none_))))))
+def tkWriteBody : Tk :=
+  .act .superToFileMap (.act .matIsAffine (.ite .matIsNone (.ret .none_) (.act .hdrIsHeader
+    (.ite .defaultXFlip (.act .mIsFlipMat tkWriteTail) (.act .mIsMat tkWriteTail)))))
+def tkSpmWrite : Tk := .ite .fileMapIsNone (.act .fileMapDefault tkWriteBody) tkWriteBody
+
+def tkReadTail : Tk := .act .to111Eye (.act .to111Shift (.act .affTimesTo (.ret .retRet)))
+def tkSpmRead : Tk :=
+  .act .retIsSuper (.ite .tryOpenMat (.ret .retRet) (.act .openMat (.act .withMatf (.act .readContents
+    (.ite .contentsEmpty (.ret .retRet) (.act .loadmat
+      (.ite .matInMats
+        (.act .matIsMatsMat (.ite .matNdimGt2 (.act .warnMany (.act .matFirstSlice (.act .affIsMat tkReadTail)))
+          (.act .affIsMat tkReadTail)))
+        (.ite .mInMats (.act .hdrIsRetHeader (.ite .defaultXFlip (.act .affIsFlipM tkReadTail) (.act .affIsM tkReadTail)))
+          (.raise .valueError)))))))))
+
+
 end Nb.C04
